@@ -21,7 +21,7 @@ def run(c):
     else:
         plans = [((R3, "memory", 3, 1, False, 0, 0, True), {}), ((R3, "memory", 3, 2, False, 0, 0, False), {}),
                  ((R3, "memory", 3, 1, True, 3, 2, True), {}), ((R3, "memory", 3, 1, True, 4, 0, False), {}),
-                 ((R3, "persistent", 3, 1, False, 0, 0, True), {}), ((R3, "persistent", 3, 2, False, 0, 0, False), {}),
+                 ((R3, "persistent", 3, 1, False, 0, 0, True), {}), ((R3, "persistent", 3, 2, False, 0, 0, False), {}), ((R3, "persistent", 3, 1, True, 3, 2, True), {}), ((R3, "persistent", 3, 1, True, 2, 1, True), {}),
                  ((R3, "memory", 1, 1, False, 0, 0, True), {}), ((R3, "memory", 3, 1, True, 2, 1, True), {})]
         scripts = xslib.generate(c, plans, num=c.pick(60, 500))
         scripts = xslib.variants(scripts, c.rng)
